@@ -1092,6 +1092,15 @@ impl CodegenContext {
             }
             Token::ProgramCounterDefinition { value, .. } => {
                 if let Some(pc) = self.evaluate_expression_as_i64(value, true)? {
+                    if !(0..=0xffff).contains(&pc) {
+                        return Err(Diagnostic::error()
+                            .with_message(format!(
+                                "program counter should be between $0000 and $FFFF, but is: {}",
+                                pc
+                            ))
+                            .with_labels(vec![value.span.to_label()])
+                            .into());
+                    }
                     if let Some(seg) = self.try_current_segment_mut() {
                         seg.set_pc(pc);
                     }
